@@ -863,9 +863,9 @@ class Terms(object):
                 # a merged / loop-carried / updated value: the same term at
                 # two program points need not be the same value; keep the
                 # fact only if nothing it mentions is re-defined in between
-                if valid is None:
-                    valid = set(id(x[2]) for x in self.flow.facts(node))
-                if id(a) not in valid:
+                # (dominance was taken under the hypotheses above; the
+                # validity test is the flow's own, node by node)
+                if not self.flow.fact_valid(a, node):
                     continue
             for x in split_cond(*c):
                 if x not in out:
@@ -1144,6 +1144,11 @@ class Terms(object):
                     lo = ("const", None)
                 return ("elem", ("item", base,
                                  ("slice", lo, hi, ("const", None))))
+            if base[0] == "tuple" and idx[0] == "const" and \
+                    isinstance(idx[1], int) and \
+                    -len(base) + 1 <= idx[1] < len(base) - 1:
+                # (a, b, c)[1] is b; (no, yes)[True] is yes
+                return base[1:][int(idx[1])]
             return ("item", base, idx)
         if isinstance(e, ast.UnaryOp):
             v = T(e.operand, node, env)
@@ -1279,6 +1284,9 @@ class Terms(object):
         return self._term(s, node, env)
 
     def _binop(self, op, a, b):
+        if op == "Add" and a[0] == "tuple" and b[0] == "tuple":
+            # (a, b) + (c,) is the tuple (a, b, c)
+            return ("tuple",) + tuple(a[1:]) + tuple(b[1:])
         if op in _COMM and _key(b) < _key(a):
             a, b = b, a
         if a[0] == "const" and b[0] == "const" and \
@@ -1347,6 +1355,35 @@ class Terms(object):
             if fmt is not None:
                 ft = ("attr", ("global", "struct"), ft[2])
                 args = (("const", fmt),) + args
+        # spellings of the same value: map(f, xs) is (f(x) for x in xs);
+        # list(<generator>) / set(<generator>) are the comprehensions;
+        # divmod(a, b) is the pair (a // b, a % b)
+        if ft == ("global", "map") and len(args) == 2 and not kws and \
+                args[0][0] in ("global", "attr", "local") and \
+                len(e.args) == 2:
+            synth = ast.Call(func=e.args[0],
+                             args=[ast.Name(id="__map_elem__",
+                                            ctx=ast.Load())], keywords=[])
+            ast.copy_location(synth, e)
+            ast.copy_location(synth.args[0], e)
+            synth._parent = getattr(e, "_parent", None)
+            synth.args[0]._parent = synth
+            env2 = dict(env)
+            env2["__map_elem__"] = self._tag(e.args[1], self._elem(args[1]))
+            return ("genexp", self._call(synth, node, env2),
+                    ((args[1], ()),))
+        if ft in (("global", "list"), ("global", "set")) and \
+                len(args) == 1 and not kws and args[0][0] == "genexp":
+            return ("listcomp" if ft[1] == "list" else "setcomp",) + \
+                tuple(args[0][1:])
+        if ft == ("global", "bool") and len(args) == 1 and not kws and \
+                self.hyps:
+            d = self._decided(args[0])
+            if d is not None:
+                return ("const", d)
+        if ft == ("global", "divmod") and len(args) == 2 and not kws:
+            return ("tuple", self._binop("FloorDiv", args[0], args[1]),
+                    self._binop("Mod", args[0], args[1]))
         inl = self._inline(e, ft, args, kws, node)
         if inl is not None:
             return inl
